@@ -11,31 +11,31 @@ def absWlfA (g : AObserver) : St2 := .withLatest g.observer.isSome g.value
 def absWlfB (g : BObserver) : St2 := .withLatest g.observer.isSome g.value
 
 theorem tie_Wlf_a_next (g : AObserver) (v : Val) :
-    (AObserver.next g v).map (fun r => (absWlfA r.1, r.2)) = some (St2.step (absWlfA g) .a (.next v)) := by
+    (AObserver.next g v).map (fun r => (absWlfA r.1, r.2)) = some (Rs.lift (St2.step (absWlfA g) .a (.next v))) := by
   rcases g with ⟨_ | _, _ | w⟩ <;>
     rs_tie [AObserver.next, Rx.Gen.RcObserver.RcObserver.next, absWlfA, St2.step, St2.guard]
 
 theorem tie_Wlf_a_error (g : AObserver) (e : Err) :
-    (AObserver.error g e).map (fun r => (absWlfA r.1, r.2)) = some (St2.step (absWlfA g) .a (.error e)) := by
+    (AObserver.error g e).map (fun r => (absWlfA r.1, r.2)) = some (Rs.lift (St2.step (absWlfA g) .a (.error e))) := by
   rcases g with ⟨_ | _, w⟩ <;>
     rs_tie [AObserver.error, Rx.Gen.RcObserver.RcObserver.error, absWlfA, St2.step, St2.guard]
 
 theorem tie_Wlf_a_complete (g : AObserver) :
-    (AObserver.complete g).map (fun r => (absWlfA r.1, r.2)) = some (St2.step (absWlfA g) .a .complete) := by
+    (AObserver.complete g).map (fun r => (absWlfA r.1, r.2)) = some (Rs.lift (St2.step (absWlfA g) .a .complete)) := by
   rcases g with ⟨_ | _, w⟩ <;>
     rs_tie [AObserver.complete, Rx.Gen.RcObserver.RcObserver.complete, absWlfA, St2.step, St2.guard]
 
 theorem tie_Wlf_b_next (g : BObserver) (v : Val) :
-    (BObserver.next g v).map (fun r => (absWlfB r.1, r.2)) = some (St2.step (absWlfB g) .b (.next v)) := by
+    (BObserver.next g v).map (fun r => (absWlfB r.1, r.2)) = some (Rs.lift (St2.step (absWlfB g) .b (.next v))) := by
   rcases g with ⟨_ | _, w⟩ <;> rs_tie [BObserver.next, absWlfB, St2.step, St2.guard]
 
 theorem tie_Wlf_b_error (g : BObserver) (e : Err) :
-    (BObserver.error g e).map (fun r => (absWlfB r.1, r.2)) = some (St2.step (absWlfB g) .b (.error e)) := by
+    (BObserver.error g e).map (fun r => (absWlfB r.1, r.2)) = some (Rs.lift (St2.step (absWlfB g) .b (.error e))) := by
   rcases g with ⟨_ | _, w⟩ <;>
     rs_tie [BObserver.error, Rx.Gen.RcObserver.RcObserver.error, absWlfB, St2.step, St2.guard]
 
 theorem tie_Wlf_b_complete (g : BObserver) :
-    (BObserver.complete g).map (fun r => (absWlfB r.1, r.2)) = some (St2.step (absWlfB g) .b .complete) := by
+    (BObserver.complete g).map (fun r => (absWlfB r.1, r.2)) = some (Rs.lift (St2.step (absWlfB g) .b .complete)) := by
   rcases g with ⟨_ | _, w⟩ <;> rs_tie [BObserver.complete, absWlfB, St2.step, St2.guard]
 
 
